@@ -26,6 +26,8 @@ def EntInv (m : Bool) (E : Entry) : Prop :=
   ∧ (E.wlocked = true → E.value = none ∧ E.holders = 0)
   ∧ (E.wlocked = false → E.err = false → E.value.isSome = true)
   ∧ (if E.viaCtor then E.ctorRuns + E.ctor = 1 else E.ctorRuns = 0 ∧ E.ctor = 0 ∧ E.failing = 0)
+  -- increments of failed acquisitions that already returned exist only on entries no longer in the map
+  ∧ (m = true → E.deadRefs = 0)
 
 structure Inv (s : G) : Prop where
   ent : ∀ e, e < s.next → EntInv (inPool s e) (s.ent e)
@@ -86,7 +88,7 @@ theorem ent_lnFailDel (h : EntInv m E) (hh : 0 < E.failing) :
     EntInv false { E with wlocked := false, failing := E.failing - 1, deadRefs := E.deadRefs + 1 } := by
   ent_tac
 
-theorem ent_lnRead_err (h : EntInv m E) (hh : 0 < E.waiters) (he : E.err = true) :
+theorem ent_lnRead_err (h : EntInv m E) (hh : 0 < E.waiters) (he : E.err = true) (hw : E.wlocked = false) :
     EntInv m { E with waiters := E.waiters - 1, deadRefs := E.deadRefs + 1 } := by
   ent_tac
 
@@ -123,6 +125,41 @@ theorem ent_del3 (h : EntInv m E) (hh : 0 < E.del3) :
   ent_tac
 
 theorem ent_refReaders (n : Nat) (h : EntInv m E) : EntInv m { E with refReaders := n } := by
+  ent_tac
+
+/-- what a holder can rely on -/
+theorem ent_holder_facts (h : EntInv m E) (hh : 0 < E.holders) :
+    m = true ∧ E.destructed = 0 ∧ E.del2 = 0 ∧ E.del3 = 0 ∧ E.value.isSome = true ∧ E.err = false
+      ∧ E.wlocked = false ∧ E.ctor = 0 ∧ (E.viaCtor = true → E.ctorRuns = 1) := by
+  ent_tac
+
+theorem ent_once (h : EntInv m E) : E.destructed ≤ 1 ∧ E.ctorRuns ≤ 1 ∧ E.del2 + E.del3 + E.destructed ≤ 1 := by
+  ent_tac
+
+/-- the destructor runs (or is about to run) only on an entry nobody counts on any more -/
+theorem ent_dying_facts (h : EntInv m E) (hh : 0 < E.del2 + E.del3 + E.destructed) :
+    m = false ∧ E.err = false ∧ E.holders = 0 ∧ E.refs = 0 ∧ E.waiters = 0 ∧ E.lsWaiters = 0 ∧ E.ctor = 0
+      ∧ E.failing = 0 ∧ E.del2 + E.del3 + E.destructed = 1 := by
+  ent_tac
+
+theorem ent_failed_facts (h : EntInv m E) (hh : E.err = true) :
+    E.holders = 0 ∧ E.value = none ∧ E.destructed = 0 ∧ E.del2 = 0 ∧ E.del3 = 0 := by
+  ent_tac
+
+theorem ent_mapped_refs (h : EntInv m E) (hm : m = true) :
+    E.refs = ((E.ctor + E.failing + E.waiters + E.lsWaiters + E.holders : Nat) : Int) ∧ 1 ≤ E.refs
+      ∧ E.destructed = 0 ∧ E.del2 = 0 ∧ E.del3 = 0 := by
+  ent_tac
+
+theorem ent_released_facts (h : EntInv m E) (hm : m = false) (he : E.err = false) :
+    E.refs = 0 ∧ E.holders = 0 ∧ E.del2 + E.del3 + E.destructed = 1 ∧ E.value.isSome = true ∧ E.wlocked = false := by
+  ent_tac
+
+theorem ent_refs_nonneg (h : EntInv m E) : 0 ≤ E.refs := by
+  ent_tac
+
+theorem ent_waiter_read (h : EntInv m E) (hh : 0 < E.waiters + E.lsWaiters) (hw : E.wlocked = false) (he : E.err = false) :
+    m = true ∧ E.value.isSome = true ∧ E.destructed = 0 ∧ E.del2 = 0 ∧ E.del3 = 0 := by
   ent_tac
 
 end entry
